@@ -44,16 +44,8 @@ def canon_impl(res):
             return "ok:other"
         if res["body_exc"]:
             return "ok:%s:raises:%s" % (kind, res["body_exc"])
-        body = res["body"]
-        if kind == "dods":
-            try:
-                head, _, payload = body.partition(b"Data:\n")
-                _, decl, _ = G.parse_dds(head.decode("ascii"))
-                vals = G.decode_dods_values(decl, payload)
-                body = head + b"Data:\n" + G.wire_text(vals).encode()
-            except Exception as e:
-                return "ok:dods:undecodable:%s" % type(e).__name__
-        return "ok:%s:%s" % (kind, hexb(body))
+        # the data response is compared byte for byte too: declaration, `Data:\n`, the XDR payload
+        return "ok:%s:%s" % (kind, hexb(res["body"]))
     return "status:%s" % res["status"]
 
 
